@@ -90,8 +90,10 @@ Definition chkA (doe : Z) : bool :=
   && (d <=? days_in_month (yoe + year_adj m) m)
   && (doe_of_parts yoe m d =? doe).
 
+(* NB: the swept expressions are stated in full (not behind a defined constant): converting a constant
+   against its unfolding makes the kernel weak-head reduce it with its slow lazy machine. *)
 Lemma sweepA : all_from chkA 0 (Z.to_nat 146097) = true.
-Proof. vm_compute. reflexivity. Qed.
+Proof. vm_cast_no_check (eq_refl true). Qed.
 
 Lemma partsA : forall doe, 0 <= doe < 146097 ->
   forall yoe m d, parts_of_doe doe = (yoe, m, d) ->
@@ -116,13 +118,11 @@ Definition chkB (yoe m d : Z) : bool :=
     (let '(y', m', d') := parts_of_doe doe in (y' =? yoe) && (m' =? m) && (d' =? d))
   else true.
 
-Definition chkB_all : bool :=
+Lemma sweepB :
   all_from (fun yoe =>
     all_from (fun m =>
-      all_from (fun d => chkB yoe m d) 1 (Z.to_nat 31)) 1 (Z.to_nat 12)) 0 (Z.to_nat 400).
-
-Lemma sweepB : chkB_all = true.
-Proof. vm_compute. reflexivity. Qed.
+      all_from (fun d => chkB yoe m d) 1 (Z.to_nat 31)) 1 (Z.to_nat 12)) 0 (Z.to_nat 400) = true.
+Proof. vm_cast_no_check (eq_refl true). Qed.
 
 Lemma partsB : forall yoe m d, 0 <= yoe < 400 -> 1 <= m <= 12 -> 1 <= d ->
   d <= days_in_month (yoe + year_adj m) m ->
@@ -130,7 +130,7 @@ Lemma partsB : forall yoe m d, 0 <= yoe < 400 -> 1 <= m <= 12 -> 1 <= d ->
 Proof.
   intros yoe m d Hy Hm Hd1 Hd.
   pose proof (days_in_month_bounds (yoe + year_adj m) m) as Hb.
-  pose proof sweepB as H. unfold chkB_all in H.
+  pose proof sweepB as H.
   apply (all_range _ 0 400 ltac:(lia)) with (w := yoe) in H; [|lia].
   apply (all_range _ 1 12 ltac:(lia)) with (w := m) in H; [|lia].
   apply (all_range _ 1 31 ltac:(lia)) with (w := d) in H; [|lia].
